@@ -87,7 +87,7 @@ Lemma is_prefix_nil_r q : is_prefix q [] = true -> q = [].
 Proof. destruct q; [reflexivity|discriminate]. Qed.
 
 Lemma node_add t v0 rest ty q :
-  (forall i, node t [v0] = Some i -> tt i <> Unknown) ->
+  (forall i, node t [v0] = Some i -> valid i = true) ->
   node (add t (v0 :: rest) ty) q =
     if str_eqb (v0 :: rest) q then Some {| valid := true; tt := ty |}
     else if is_prefix q (v0 :: rest) && negb (str_eqb q []) then
@@ -99,13 +99,13 @@ Proof.
   assert (Ht1: forall x, node t1 x = if str_eqb [v0] x then keep (node t [v0]) else node t x).
   { intros x. unfold t1. rewrite node_ensure. reflexivity. }
   set (t2 := match node t1 [v0] with
-             | Some i => if ttype_eqb (tt i) Unknown then set_node t1 [v0] {| valid := true; tt := Symbol |} else t1
+             | Some i => if negb (valid i) then set_node t1 [v0] {| valid := true; tt := Symbol |} else t1
              | None => t1 end).
   assert (Ht2: forall x, node t2 x = if str_eqb [v0] x then (match node t [v0] with Some i => Some i | None => Some {| valid := true; tt := Symbol |} end) else node t x).
   { intros x. unfold t2. rewrite (Ht1 [v0]). rewrite str_eqb_refl. destruct (node t [v0]) as [i|] eqn:E; cbn [keep].
-    - destruct (ttype_eqb (tt i) Unknown) eqn:Eu; [apply ttype_eqb_eq in Eu; exfalso; exact (Hty i eq_refl Eu)|].
+    - rewrite (Hty i eq_refl). cbn [negb].
       rewrite Ht1. try rewrite E. reflexivity.
-    - cbn [fresh tt]. replace (ttype_eqb Unknown Unknown) with true by reflexivity. rewrite node_set. rewrite Ht1. try rewrite E.
+    - cbn [fresh valid negb]. rewrite node_set. rewrite Ht1. try rewrite E.
       destruct (str_eqb [v0] x); reflexivity. }
   rewrite node_descend. cbn [app].
   destruct (str_eqb (v0 :: rest) q) eqn:Efull; [reflexivity|].
@@ -144,7 +144,8 @@ Definition node_spec (regs : list reg) (q : str) : option info :=
          else None
   end.
 
-Definition valid_reg (r : reg) : Prop := fst r <> [] /\ snd r <> Unknown.
+(* a registration is a non-empty symbol with any token type (the empty symbol makes Go panic) *)
+Definition valid_reg (r : reg) : Prop := fst r <> [].
 
 Lemma registered_app regs r q : registered (regs ++ [r]) q = registered regs q || str_eqb (fst r) q.
 Proof. unfold registered. rewrite existsb_app. simpl. rewrite orb_false_r. reflexivity. Qed.
@@ -162,23 +163,23 @@ Proof.
   unfold registered, has_ext. rewrite !existsb_exists. intros [r [Hin H]]. exists r. split; auto.
   apply str_eqb_eq in H. rewrite H. apply is_prefix_spec. exists []. rewrite app_nil_r. reflexivity.
 Qed.
-Lemma last_type_known regs q : Forall valid_reg regs -> registered regs q = true -> last_type regs q <> Unknown.
+Lemma last_type_known regs q : Forall (fun r : reg => snd r <> Unknown) regs -> registered regs q = true -> last_type regs q <> Unknown.
 Proof.
   induction regs as [|r regs IH]; intros Hv H; [discriminate|]. inversion Hv; subst. cbn [last_type].
   cbn [registered existsb] in H. fold (registered regs q) in H.
-  destruct (registered regs q) eqn:E; [auto|]. rewrite orb_false_r in H. rewrite H. apply H2.
+  destruct (registered regs q) eqn:E; [auto|]. rewrite orb_false_r in H. rewrite H. assumption.
 Qed.
 
 Theorem build_spec regs : Forall valid_reg regs -> forall q, node (build regs) q = node_spec regs q.
 Proof.
   induction regs as [|r regs IH] using rev_ind; intros Hv q.
   - destruct q; reflexivity.
-  - apply Forall_app in Hv. destruct Hv as [Hv Hr]. inversion Hr as [|? ? [Hne Hty] _]; subst. specialize (IH Hv).
+  - apply Forall_app in Hv. destruct Hv as [Hv Hr]. inversion Hr as [|? ? Hne _]; subst. specialize (IH Hv).
     unfold build. rewrite fold_left_app. cbn [fold_left]. fold (build regs).
-    destruct r as [sym ty]. cbn [fst snd] in *. destruct sym as [|v0 rest]; [congruence|].
+    destruct r as [sym ty]. unfold valid_reg in Hne. cbn [fst snd] in *. destruct sym as [|v0 rest]; [congruence|].
     rewrite node_add.
     2:{ intros i Hi. rewrite IH in Hi. cbn [node_spec] in Hi. destruct (has_ext regs [v0]); [|discriminate]. inversion Hi; subst.
-        destruct (registered regs [v0]) eqn:E; cbn [tt]; [apply last_type_known; auto|unfold implicit; cbn; discriminate]. }
+        destruct (registered regs [v0]) eqn:E; reflexivity. }
     rewrite IH. unfold node_spec. rewrite registered_app, has_ext_app, last_type_app. cbn [fst snd].
     destruct (str_eqb (v0 :: rest) q) eqn:Efull.
     + apply str_eqb_eq in Efull. subst q. rewrite orb_true_r.
